@@ -239,7 +239,7 @@ def C3D.point (F : FloatOps) (s : C3D) (name : Bytes) : Outcome C3D :=
     let pt : Point := Point.setName {} name
     let fr : Frame := { pts := [pt] }
     s.pointCols F (List.replicate s.frames.length fr)
-  else updateParameters F s [name] []
+  else updateParameters F s [(Point.setName {} name).name] []      -- the label is the name as a point stores it (trimmed)
 
 def checkAnalogCols (labels : List Bytes) (stored frames : List Frame) (nsf : Nat)
     (cols : List (Nat × Channel)) : Option Exc :=
@@ -280,7 +280,7 @@ def C3D.analog (F : FloatOps) (s : C3D) (name : Bytes) : Outcome C3D :=
     let sf : SubFrame := [ch]
     let fr : Frame := { subs := List.replicate s.hdr.nbAnalogByFrame sf }
     s.analogCols F (List.replicate s.frames.length fr)
-  else updateParameters F s [] [name]
+  else updateParameters F s [] [(Channel.setName {} name).name]    -- the label is the name as a channel stores it (trimmed)
 
 /-- The public mutating operations of an `ezc3d::c3d`. -/
 inductive Op where
